@@ -270,12 +270,26 @@ class Interp:
             self.stack.pop()
             self.depth -= 1
 
+    @staticmethod
+    def bind_names(fi, args, kwargs, skip_self):
+        """arguments of a call by parameter name, whether they were passed by position or by keyword"""
+        try:
+            names = [a.arg for a in fi.node.args.args]
+        except AttributeError:
+            return dict(kwargs)
+        if skip_self and names:
+            names = names[1:]
+        out = dict(kwargs)
+        for n_, v_ in zip(names, args):
+            out.setdefault(n_, v_)
+        return out
+
     def call_value(self, f, args, kwargs, node=None):
         if isinstance(f, BoundMethod):
-            self.ev("call", callee=f.fi.qualname, recv=f.obj, args=args, kwargs=dict(kwargs), node=node)
+            self.ev("call", callee=f.fi.qualname, recv=f.obj, args=args, kwargs=dict(kwargs), node=node, bound=self.bind_names(f.fi, args, kwargs, not f.fi.is_staticmethod))
             return self.call_function(f.fi, args, kwargs, self_obj=f.obj)
         if isinstance(f, FuncInfo):
-            self.ev("call", callee=f.qualname, recv=None, args=args, kwargs=dict(kwargs), node=node)
+            self.ev("call", callee=f.qualname, recv=None, args=args, kwargs=dict(kwargs), node=node, bound=self.bind_names(f, args, kwargs, False))
             return self.call_function(f, args, kwargs)
         if isinstance(f, Closure):
             self.ev("call", callee=getattr(f.node, "name", "<lambda>"), recv=None, args=args, kwargs=dict(kwargs), node=node)
@@ -1144,6 +1158,21 @@ class Interp:
             return self.call_builtin_method(f, args, kwargs, e, env)
         if isinstance(f, ExtRef) and f.name.startswith("builtins."):
             return self.call_builtin(f.name[9:], args, kwargs, e, env)
+        if any(isinstance(a_, Op) and a_.op == "star" for a_ in args) and isinstance(f, (FuncInfo, BoundMethod)):
+            # f(*t) with a symbolic sequence t (rand.unbind(dim=1)): it fills the positional parameters that are still open
+            fi_ = f.fi if isinstance(f, BoundMethod) else f
+            if fi_.node.args.vararg is None:
+                names_ = [a_.arg for a_ in fi_.node.args.args][(1 if isinstance(f, BoundMethod) and not fi_.is_staticmethod else 0):]
+                need = len([n_ for n_ in names_[:len(names_) - len(fi_.node.args.defaults)] if n_ not in kwargs]) - len([a_ for a_ in args if not (isinstance(a_, Op) and a_.op == "star")])
+                stars = [a_ for a_ in args if isinstance(a_, Op) and a_.op == "star"]
+                if len(stars) == 1 and need >= 0:
+                    out_ = []
+                    for a_ in args:
+                        if isinstance(a_, Op) and a_.op == "star":
+                            out_.extend(Op("getitem", (a_.args[0], k_)) for k_ in range(need))
+                        else:
+                            out_.append(a_)
+                    args = out_
         return self.call_value(f, args, kwargs, e)
 
     # generator expressions / comprehensions
@@ -1152,6 +1181,26 @@ class Interp:
 
     def eval_GeneratorExp(self, e, env):
         return self.comprehension(e, env)
+
+    def eval_SetComp(self, e, env):
+        v = self.comprehension(e, env)
+        if not isinstance(v, list):
+            raise Unsupported("set comprehension over a symbolic sequence")
+        out = []
+        for x in v:
+            if not any(x is y or x == y for y in out):
+                out.append(x)
+        return out
+
+    def eval_DictComp(self, e, env):
+        """{k: v for ... in <concrete sequence> if ...}: built like the list comprehension of its (key, value) pairs"""
+        pair = ast.ListComp(elt=ast.Tuple(elts=[e.key, e.value], ctx=ast.Load()), generators=e.generators)
+        ast.copy_location(pair, e)
+        ast.fix_missing_locations(pair)
+        items = self.comprehension(pair, env)
+        if not isinstance(items, list):
+            raise Unsupported("dict comprehension over a symbolic sequence")
+        return {k: v for k, v in items}
 
     def comprehension(self, e, env):
         if len(e.generators) != 1:
@@ -1566,7 +1615,8 @@ def i_deriv_getattr(interp, obj, args, kwargs):
 
 
 def i_register_underlier(interp, obj, args, kwargs):
-    name, u = args
+    name = args[0] if args else kwargs["name"]
+    u = args[1] if len(args) > 1 else kwargs["underlier"]
     obj.attrs.setdefault("__underliers__", []).append(u) if u not in obj.attrs.get("__underliers__", []) else None
     obj.attrs[name] = u
     return None
